@@ -42,6 +42,16 @@ CHECKS = {
         'All key sequences of length <=3 over a 10-symbol alphabet are enumerated for parse/format in every run. Exploration.',
         'String keys non-empty with nested brackets (the quantifier); ordering laws asserted only where int and str keys are not compared at one position (documented str() compare).',
         'DESIGN.md section 3 C10'),
+    'C03': (
+        'model-based stateful PBT over generated schemas (Hypothesis) with spec-directed valid / near-miss value samplers',
+        'Generated schemas over the whole value-spec vocabulary (ranges, enums, nested list/tuple/dict/object/union specs, '
+        'noneable/default/frozen, dynamic keys; list, dict and dynamically created pg.Object roots, possibly partial) and histories '
+        'of valid and near-miss writes through every write path (accessors, rebind incl. multi-path batches, list/dict mutators, '
+        'slices, in-place operators, allow_partial / notify_on_change scopes). After every step the state is re-validated by the library '
+        'spec on a deep clone and by an independent acceptance predicate; a write the predicate classifies invalid must raise '
+        'Type/Value/KeyError and leave to_json unchanged. Exploration, not proof.',
+        'Type check on; transforms/regex not generated; independent predicate is conservative (answers unknown for unmodelled conversions); frozen modelled for primitives, lists of primitives, schema-less dicts.',
+        'DESIGN.md section 3 C03'),
 }
 
 NOT_BUILT = 'check not built yet in this round (planned; see DESIGN.md section 3)'
